@@ -756,6 +756,8 @@ class PowLoop:
             K = fr.env["self"].kind
             X = path.ghost["X"]
             n0 = path.ghost["n0"]
+            from pyvc.loops import require_declared
+            require_declared(st, fr, {"o", "t", "other"}, self.name)
             o, t, other = fr.env["o"], fr.env["t"], fr.env["other"]
             nm = self.name
             path.prove(f"{nm}/loop.pow/entry", eqz(o, K(1)), kind="invariant", detail="o = 1")
@@ -885,8 +887,8 @@ def u_sgn0(ctx):
             e = z3.If(x != 0, x % 2, e)
         return e
 
-    def run(clsname, d):
-        name = f"{base}.{clsname}.sgn0" + (f"[d={d}]" if clsname == "FQP" else "")
+    def run(clsname, d, fq_coeffs=False):
+        name = f"{base}.{clsname}.sgn0" + (f"[d={d}]" if clsname == "FQP" else "") + ("[FQ-object coefficients]" if fq_coeffs else "")
 
         def body(path):
             it = mk_interp(ctx, name)
@@ -905,13 +907,22 @@ def u_sgn0(ctx):
                 xs = [zt(n)]
             else:
                 cs = []
+                gfq = ClassVal("GFQ", mod, _FakeClassNode("GFQ"), [it.module_value(mod, "FQ")], {"field_modulus": p})
+                ns = []
                 for i in range(d):
                     c = SInt(z3.Int(f"c{i}"))
                     path.assume(ZAtom(z3.And(zt(c) >= 0, zt(c) < zt(p))), "valid: 0 <= c_i < p")
-                    cs.append(c)
+                    ns.append(c)
+                    if fq_coeffs:
+                        # the optimized classes accept IntOrFQ coefficients: the same element, coefficients held as FQ objects
+                        fo = Obj(gfq)
+                        fo.attrs["n"] = c
+                        cs.append(fo)
+                    else:
+                        cs.append(c)
                 o.attrs["coeffs"] = tuple(cs)
                 o.attrs["degree"] = d
-                xs = [zt(c) for c in cs]
+                xs = [zt(c) for c in ns]
             fv, _ = gcls.lookup("sgn0")
             it.cfg.top = fv.qualname
             try:
@@ -926,6 +937,8 @@ def u_sgn0(ctx):
     run("FQ2", 2)
     run("FQP", 3)
     run("FQP", 12)
+    run("FQ2", 2, True)
+    run("FQP", 3, True)
 
 
 def u_fq_compare(ctx, modname):
